@@ -110,6 +110,9 @@ type serverConn struct {
 
 	st      Settings
 	clientS Settings
+	// clientFrameSize is the client's SETTINGS_MAX_FRAME_SIZE. The read loop
+	// stores it and the write loop, which cuts header blocks to it, loads it.
+	clientFrameSize uint32
 
 	// pingTimer
 	pingTimer       *time.Timer
@@ -1826,7 +1829,7 @@ func (sc *serverConn) writeLoop() {
 	buffered := 0
 
 	send := func(fr *FrameHeader) error {
-		_, err := fr.WriteTo(sc.bw)
+		_, err := fr.writeLimited(sc.bw, atomic.LoadUint32(&sc.clientFrameSize))
 		if err == nil && (len(sc.writer) == 0 || buffered > 10) {
 			err = sc.bw.Flush()
 			buffered = 0
@@ -1878,6 +1881,7 @@ func (sc *serverConn) handleSettings(st *Settings) {
 	}
 
 	sc.enc.SetMaxTableSize(sc.clientS.HeaderTableSize())
+	atomic.StoreUint32(&sc.clientFrameSize, sc.clientS.MaxFrameSize())
 
 	// The per-stream send windows are adjusted in handleStreams, where the
 	// stream table lives. The connection-level window is not affected by
